@@ -1,6 +1,7 @@
 package main
 
 import (
+	"regexp"
 	"encoding/json"
 	"flag"
 	"fmt"
@@ -46,7 +47,7 @@ func main() {
 	repo := flag.String("repo", "/repo", "repository root")
 	assumed := flag.String("assumed", "/verif/assumed", "assumed contracts dir")
 	propsF := flag.String("props", "", "comma-separated property ids (empty = all)")
-	fnFilter := flag.String("fn", "", "only functions whose key contains this")
+	fnFilter := flag.String("fn", "", "only functions whose key matches this regular expression")
 	out := flag.String("out", "", "output JSON file (default stdout)")
 	dumpSMT := flag.String("dump", "", "directory to dump .smt2 files")
 	knownF := flag.String("known", "", "known_findings.json (carve-outs)")
@@ -136,7 +137,7 @@ func main() {
 				Props: con.Props, Backend: "static", Static: "function not found", Pos: con.Pos})
 			continue
 		}
-		if *fnFilter != "" && !strings.Contains(k, *fnFilter) {
+		if *fnFilter != "" && !fnMatch(k, *fnFilter) {
 			continue
 		}
 		rep := FnReport{Fn: shortFnName(k), Key: k, Props: con.allProps(), Arith: con.Arith, Trusted: con.Trusted, TrustedWhy: con.TrustedWhy}
@@ -270,7 +271,7 @@ func main() {
 			if k == "" || cs.Funcs[k] != nil {
 				continue
 			}
-			if *fnFilter != "" && !strings.Contains(k, *fnFilter) {
+			if *fnFilter != "" && !fnMatch(k, *fnFilter) {
 				continue
 			}
 			ic := g.inheritedContract(fn)
@@ -401,7 +402,7 @@ func main() {
 			if k == "" || strings.HasSuffix(k, ".init") || strings.Contains(k, "/cmd/") || strings.Contains(k, "starlarktest") || strings.Contains(k, "/repl") {
 				continue
 			}
-			if *fnFilter != "" && !strings.Contains(k, *fnFilter) {
+			if *fnFilter != "" && !fnMatch(k, *fnFilter) {
 				continue
 			}
 			if *sweepAll || claimed[k] {
@@ -473,7 +474,7 @@ func main() {
 		if len(want) > 0 && !intersects(d.Props, want) {
 			continue
 		}
-		if *fnFilter != "" && !strings.Contains("lemma:"+d.Text, *fnFilter) {
+		if *fnFilter != "" && !fnMatch("lemma:"+d.Text, *fnFilter) {
 			continue
 		}
 		o, err := g.lemmaObligation(d)
@@ -659,12 +660,20 @@ func skolemize(g string) (decl string, body string) {
 		if k < 0 {
 			break
 		}
-		binder := strings.Fields(body[len("(forall (("):k])
-		if len(binder) < 2 {
+		// one or more "(name Sort)" binders: "x S) (y T"
+		var binders [][2]string
+		okb := true
+		for _, b := range strings.Split(body[len("(forall (("):k], ") (") {
+			fs := strings.Fields(b)
+			if len(fs) < 2 {
+				okb = false
+				break
+			}
+			binders = append(binders, [2]string{fs[0], strings.Join(fs[1:], " ")})
+		}
+		if !okb || len(binders) == 0 {
 			break
 		}
-		bn := binder[0]
-		srt := strings.Join(binder[1:], " ")
 		inner := body[k+3 : len(body)-1]
 		if strings.HasPrefix(inner, "(! ") {
 			t := inner[3:]
@@ -685,9 +694,12 @@ func skolemize(g string) (decl string, body string) {
 			}
 			inner = t[:end]
 		}
-		sk := "sk!" + strings.ReplaceAll(bn, "!", "_")
-		decl += fmt.Sprintf("(declare-const %s %s)\n", sk, srt)
-		body = replaceToken(inner, bn, sk)
+		body = inner
+		for _, b := range binders {
+			sk := "sk!" + strings.ReplaceAll(b[0], "!", "_")
+			decl += fmt.Sprintf("(declare-const %s %s)\n", sk, b[1])
+			body = replaceToken(body, b[0], sk)
+		}
 	}
 	return decl, body
 }
@@ -928,4 +940,19 @@ func (g *Global) isIfaceMethod(key string) bool {
 func fatal(format string, args ...any) {
 	fmt.Fprintf(os.Stderr, "vcgen: "+format+"\n", args...)
 	os.Exit(2)
+}
+
+var fnRe = map[string]*regexp.Regexp{}
+
+// fnMatch: -fn is a regular expression (a plain substring still works).
+func fnMatch(k, pat string) bool {
+	re, ok := fnRe[pat]
+	if !ok {
+		re, _ = regexp.Compile(pat)
+		fnRe[pat] = re
+	}
+	if re == nil {
+		return strings.Contains(k, pat)
+	}
+	return re.MatchString(k)
 }
